@@ -17,8 +17,10 @@
    [basis_mat mask modes nrm crd i p] = pixel p (row-major) of zernike(mask, modes[i], nrm, crd).
    [scatter n modes cs] = the coefficient vector handed to zernike_compose: cs_i at position
    modes_i - 1 (Noll index modes_i), length n.
+   The list of modes is non-empty in the total statements (as in the property text): zernike_fit and
+   zernike_remove refuse an empty list (C12_fit_returns_iff).
    *)
-From LV Require Import Model.ZernikeFit Proofs.ZernikeFitP Lib.LsqR Lib.Cis Lib.GaussTotal.
+From LV Require Import Model.ZernikeFit Proofs.ZernikeFitP Proofs.ZernikeArgsP Lib.LsqR Lib.Cis Lib.GaussTotal.
 
 Notation solver_sound S solve :=
   (forall k N B y (c : list S), solve k N B y = Ok c -> Z.of_nat (length c) = k /\ NE k N B y (nthZ c)).
@@ -40,7 +42,7 @@ Theorem C12_fit_compose_id :
   forall (Crd : Type) (is0 : S -> bool) (zpoly : bool -> option Crd -> Z -> Z -> Z -> S) solve,
   solver_sound S solve -> solver_total S solve ->
   forall (mask : arr S) (n : Z) (modes : list Z) (cs : list S) (normalize : bool) (crd : option Crd),
-  0 <= n -> (forall i, 0 <= i < Z.of_nat (length modes) -> 1 <= nthmode modes i <= n) ->
+  modes <> [] -> 0 <= n -> (forall i, 0 <= i < Z.of_nat (length modes) -> 1 <= nthmode modes i <= n) ->
   length cs = length modes ->
   indep (Z.of_nat (length modes)) (nr mask * nc mask) (basis_mat is0 zpoly mask modes normalize crd) ->
   zernike_fit is0 zpoly solve (zernike_compose is0 zpoly mask (scatter n modes cs) normalize crd)
@@ -89,7 +91,7 @@ Theorem C12_remove_is_projection :
   forall (Crd : Type) (is0 : S -> bool) (zpoly : bool -> option Crd -> Z -> Z -> Z -> S) solve,
   solver_sound S solve -> solver_total S solve ->
   forall (opd mask : arr S) (modes : list Z) (crd : option Crd),
-  modes_ok modes = true -> nr opd = nr mask -> nc opd = nc mask ->
+  modes <> [] -> modes_ok modes = true -> nr opd = nr mask -> nc opd = nc mask ->
   indep (Z.of_nat (length modes)) (nr mask * nc mask) (basis_mat is0 zpoly mask modes true crd) ->
   exists res, zernike_remove is0 zpoly solve opd mask modes crd = Ok res /\
     (exists c', zernike_fit is0 zpoly solve res mask modes true crd = Ok c' /\ length c' = length modes /\
@@ -106,7 +108,7 @@ Theorem C12_remove_compose_zero :
   forall (Crd : Type) (is0 : S -> bool) (zpoly : bool -> option Crd -> Z -> Z -> Z -> S) solve,
   solver_sound S solve -> solver_total S solve ->
   forall (mask : arr S) (n : Z) (modes : list Z) (cs : list S) (crd : option Crd),
-  0 <= n -> (forall i, 0 <= i < Z.of_nat (length modes) -> 1 <= nthmode modes i <= n) ->
+  modes <> [] -> 0 <= n -> (forall i, 0 <= i < Z.of_nat (length modes) -> 1 <= nthmode modes i <= n) ->
   length cs = length modes ->
   indep (Z.of_nat (length modes)) (nr mask * nc mask) (basis_mat is0 zpoly mask modes true crd) ->
   exists res, zernike_remove is0 zpoly solve (zernike_compose is0 zpoly mask (scatter n modes cs) true crd) mask modes crd = Ok res /\
@@ -176,7 +178,7 @@ Print Assumptions C12_solver_total.
 Theorem C12_executed_fit_compose_id :
   forall (Crd : Type) (is0 : QS -> bool) (zpoly : bool -> option Crd -> Z -> Z -> Z -> QS)
          (mask : arr QS) (n : Z) (modes : list Z) (cs : list QS) (normalize : bool) (crd : option Crd),
-  0 <= n -> (forall i, 0 <= i < Z.of_nat (length modes) -> 1 <= nthmode modes i <= n) ->
+  modes <> [] -> 0 <= n -> (forall i, 0 <= i < Z.of_nat (length modes) -> 1 <= nthmode modes i <= n) ->
   length cs = length modes ->
   indep (Z.of_nat (length modes)) (nr mask * nc mask) (basis_mat is0 zpoly mask modes normalize crd) ->
   zernike_fit is0 zpoly q_solve (zernike_compose is0 zpoly mask (scatter n modes cs) normalize crd)
@@ -189,7 +191,7 @@ Print Assumptions C12_executed_fit_compose_id.
 Theorem C12_executed_remove_is_projection :
   forall (Crd : Type) (is0 : QS -> bool) (zpoly : bool -> option Crd -> Z -> Z -> Z -> QS)
          (opd mask : arr QS) (modes : list Z) (crd : option Crd),
-  modes_ok modes = true -> nr opd = nr mask -> nc opd = nc mask ->
+  modes <> [] -> modes_ok modes = true -> nr opd = nr mask -> nc opd = nc mask ->
   indep (Z.of_nat (length modes)) (nr mask * nc mask) (basis_mat is0 zpoly mask modes true crd) ->
   exists res, zernike_remove is0 zpoly q_solve opd mask modes crd = Ok res /\
     (exists c', zernike_fit is0 zpoly q_solve res mask modes true crd = Ok c' /\ length c' = length modes /\
@@ -204,7 +206,7 @@ Print Assumptions C12_executed_remove_is_projection.
 Theorem C12_executed_remove_compose_zero :
   forall (Crd : Type) (is0 : QS -> bool) (zpoly : bool -> option Crd -> Z -> Z -> Z -> QS)
          (mask : arr QS) (n : Z) (modes : list Z) (cs : list QS) (crd : option Crd),
-  0 <= n -> (forall i, 0 <= i < Z.of_nat (length modes) -> 1 <= nthmode modes i <= n) ->
+  modes <> [] -> 0 <= n -> (forall i, 0 <= i < Z.of_nat (length modes) -> 1 <= nthmode modes i <= n) ->
   length cs = length modes ->
   indep (Z.of_nat (length modes)) (nr mask * nc mask) (basis_mat is0 zpoly mask modes true crd) ->
   exists res, zernike_remove is0 zpoly q_solve (zernike_compose is0 zpoly mask (scatter n modes cs) true crd) mask modes crd = Ok res /\
@@ -213,6 +215,89 @@ Proof. intros Crd is0 zpoly mask n modes cs crd.
   exact (remove_compose_zero_total QS QS_ring QS_formally_real Crd is0 zpoly q_solve q_solve_sound q_solve_total
                                    mask n modes cs crd). Qed.
 Print Assumptions C12_executed_remove_compose_zero.
+
+(* ================= the public entry points around the kernel (group "deepen") =================
+   zernike_basis as a function of its own, which calls return / are refused, shapes of the results. *)
+
+(* zernike_basis(mask, modes, vectorize=False, ...): refused exactly for a Noll index < 1 (ValueError);
+   otherwise one array per requested mode, in the caller's order, each equal to zernike(mask, modes[i], ...)
+   (an empty list gives the empty cube) *)
+Theorem C12_basis_cube :
+  forall (S : Scalar) (Crd : Type) (is0 : S -> bool) (zpoly : bool -> option Crd -> Z -> Z -> Z -> S)
+         (mask : arr S) (modes : list Z) (normalize : bool) (crd : option Crd),
+  (forall e, zernike_basis_cube is0 zpoly mask modes normalize crd = Err e -> e = ValueError /\ modes_ok modes = false) /\
+  (forall cb, zernike_basis_cube is0 zpoly mask modes normalize crd = Ok cb ->
+     modes_ok modes = true /\ length cb = length modes /\
+     forall i, 0 <= i < Z.of_nat (length modes) ->
+       nth (Z.to_nat i) cb (azeros 0 0) = zernike is0 zpoly mask (nthmode modes i) normalize crd).
+Proof. intros S Crd is0 zpoly mask modes nrm crd. exact (basis_cube_spec S Crd is0 zpoly mask modes nrm crd). Qed.
+Print Assumptions C12_basis_cube.
+
+(* vectorize=True: refused for an index < 1 or an EMPTY list (reshape of an empty cube), ValueError; otherwise the
+   (len(modes), mask.size) matrix whose row i is cube[i] flattened row-major *)
+Theorem C12_basis_vectorized :
+  forall (S : Scalar) (Crd : Type) (is0 : S -> bool) (zpoly : bool -> option Crd -> Z -> Z -> Z -> S)
+         (mask : arr S) (modes : list Z) (normalize : bool) (crd : option Crd),
+  (forall e, zernike_basis_vec is0 zpoly mask modes normalize crd = Err e ->
+     e = ValueError /\ (modes_ok modes = false \/ modes = [])) /\
+  (forall B, zernike_basis_vec is0 zpoly mask modes normalize crd = Ok B ->
+     modes_ok modes = true /\ modes <> [] /\ nr B = Z.of_nat (length modes) /\ nc B = nr mask * nc mask /\
+     forall cb, zernike_basis_cube is0 zpoly mask modes normalize crd = Ok cb ->
+     forall i p, 0 <= i < Z.of_nat (length modes) ->
+       get B i p = ravel (nth (Z.to_nat i) cb (azeros 0 0)) p).
+Proof. intros S Crd is0 zpoly mask modes nrm crd. exact (basis_vec_spec S Crd is0 zpoly mask modes nrm crd). Qed.
+Print Assumptions C12_basis_vectorized.
+
+(* which calls of the EXECUTED model return, for a mode set independent on the mask: exactly the well-formed
+   ones; every refusal is a ValueError; the results have the documented shapes.  [a] is the pair of coordinate
+   arguments as passed (rho alone is refused as soon as a mode is evaluated, theta alone is ignored). *)
+Theorem C12_compose_returns_iff :
+  forall (S : Scalar) (Crd : Type) (is0 : S -> bool) (zpoly : bool -> option Crd -> Z -> Z -> Z -> S)
+         (mask : arr S) (coeffs : list S) (normalize : bool) (a : coordarg Crd),
+  ((exists y, zernike_compose_a is0 zpoly mask coeffs normalize a = Ok y) <-> coords_err a (length coeffs) = false) /\
+  (forall e, zernike_compose_a is0 zpoly mask coeffs normalize a = Err e -> e = ValueError) /\
+  (forall y, zernike_compose_a is0 zpoly mask coeffs normalize a = Ok y ->
+     y = zernike_compose is0 zpoly mask coeffs normalize (coords_of a) /\ nr y = nr mask /\ nc y = nc mask).
+Proof. intros S Crd is0 zpoly mask coeffs nrm a. exact (compose_a_returns S Crd is0 zpoly mask coeffs nrm a). Qed.
+Print Assumptions C12_compose_returns_iff.
+
+Theorem C12_fit_returns_iff :
+  forall (Crd : Type) (is0 : QS -> bool) (zpoly : bool -> option Crd -> Z -> Z -> Z -> QS)
+         (opd mask : arr QS) (modes : list Z) (normalize : bool) (a : coordarg Crd),
+  (modes <> [] -> modes_ok modes = true ->
+   indep (Z.of_nat (length modes)) (nr mask * nc mask) (basis_mat is0 zpoly mask modes normalize (coords_of a))) ->
+  ((exists c, zernike_fit_a is0 zpoly q_solve opd mask modes normalize a = Ok c) <->
+   (coords_err a (length modes) = false /\ modes_ok modes = true /\ modes <> [] /\
+    nr opd * nc opd = nr mask * nc mask)) /\
+  (forall e, zernike_fit_a is0 zpoly q_solve opd mask modes normalize a = Err e -> e = ValueError) /\
+  (forall c, zernike_fit_a is0 zpoly q_solve opd mask modes normalize a = Ok c -> length c = length modes).
+Proof. intros Crd is0 zpoly opd mask modes nrm a.
+  exact (fit_a_returns QS Crd is0 zpoly q_solve q_solve_sound q_solve_total q_solve_err opd mask modes nrm a). Qed.
+Print Assumptions C12_fit_returns_iff.
+
+Theorem C12_remove_returns_iff :
+  forall (Crd : Type) (is0 : QS -> bool) (zpoly : bool -> option Crd -> Z -> Z -> Z -> QS)
+         (opd mask : arr QS) (modes : list Z) (a : coordarg Crd),
+  (modes <> [] -> modes_ok modes = true ->
+   indep (Z.of_nat (length modes)) (nr mask * nc mask) (basis_mat is0 zpoly mask modes true (coords_of a))) ->
+  ((exists r, zernike_remove_a is0 zpoly q_solve opd mask modes a = Ok r) <->
+   (coords_err a (length modes) = false /\ modes_ok modes = true /\ modes <> [] /\
+    nr opd = nr mask /\ nc opd = nc mask)) /\
+  (forall e, zernike_remove_a is0 zpoly q_solve opd mask modes a = Err e -> e = ValueError) /\
+  (forall r, zernike_remove_a is0 zpoly q_solve opd mask modes a = Ok r -> nr r = nr opd /\ nc r = nc opd).
+Proof. intros Crd is0 zpoly opd mask modes a.
+  exact (remove_a_returns QS Crd is0 zpoly q_solve q_solve_sound q_solve_total q_solve_err opd mask modes a). Qed.
+Print Assumptions C12_remove_returns_iff.
+
+Theorem C12_basis_returns_iff :
+  forall (S : Scalar) (Crd : Type) (is0 : S -> bool) (zpoly : bool -> option Crd -> Z -> Z -> Z -> S)
+         (mask : arr S) (modes : list Z) (vectorize normalize : bool) (a : coordarg Crd),
+  ((exists b, zernike_basis_a is0 zpoly mask modes vectorize normalize a = Ok b) <->
+   (coords_err a (length modes) = false /\ modes_ok modes = true /\ (vectorize = true -> modes <> []))) /\
+  (forall e, zernike_basis_a is0 zpoly mask modes vectorize normalize a = Err e -> e = ValueError).
+Proof. intros S Crd is0 zpoly mask modes vectorize nrm a.
+  exact (basis_a_returns S Crd is0 zpoly mask modes vectorize nrm a). Qed.
+Print Assumptions C12_basis_returns_iff.
 
 (* ---- non-vacuity: a concrete 3-mode instance on a 2x2 mask, modes requested as [3; 1; 2] ----
    family: mode 1 = 1, mode 2 = column index, mode 3 = row index (independent on the 4 pixels);
@@ -265,9 +350,31 @@ Qed.
 Example C12_nonvacuous_total :
   zernike_fit ex_is0 ex_zpoly q_solve (zernike_compose ex_is0 ex_zpoly ex_mask (scatter 3 ex_modes ex_cs) true None)
               ex_mask ex_modes true None = Ok ex_cs.
-Proof. apply C12_executed_fit_compose_id; [lia | | reflexivity | exact (proj1 C12_nonvacuous)].
+Proof. apply C12_executed_fit_compose_id; [discriminate | lia | | reflexivity | exact (proj1 C12_nonvacuous)].
   intros i Hi. cbn [length ex_modes Z.of_nat Pos.of_succ_nat Pos.succ] in Hi.
   assert (i = 0 \/ i = 1 \/ i = 2) as [-> | [-> | ->]] by lia.
   - change (nthmode ex_modes 0) with 3. lia.
   - change (nthmode ex_modes 1) with 1. lia.
   - change (nthmode ex_modes 2) with 2. lia. Qed.
+
+(* non-vacuity of the "deepen" group on the same concrete instance: the cube and the matrix of the three modes, the
+   refusals (index 0, empty list, rho without theta) and an accepted lone theta *)
+Example C12_entry_points_nonvacuous :
+  match zernike_basis_vec ex_is0 ex_zpoly ex_mask ex_modes true None with
+  | Ok B => (nr B, nc B) = (3, 4) /\ map (fun q : Qc => this q) (tabulate B) =
+                                     [0 # 1; 0 # 1; 1 # 1; 1 # 1;   1 # 1; 1 # 1; 1 # 1; 1 # 1;   0 # 1; 1 # 1; 0 # 1; 1 # 1]
+  | Err _ => False end /\
+  match zernike_basis_cube ex_is0 ex_zpoly ex_mask ex_modes true None with
+  | Ok cb => length cb = 3%nat | Err _ => False end /\
+  zernike_basis_a ex_is0 ex_zpoly ex_mask [] false true CNone = Ok (Datatypes.inl []) /\
+  zernike_basis_a ex_is0 ex_zpoly ex_mask [] true true CNone = Err ValueError /\
+  zernike_fit_a ex_is0 ex_zpoly q_solve ex_opd ex_mask [] true CNone = Err ValueError /\
+  zernike_fit_a ex_is0 ex_zpoly q_solve ex_opd ex_mask [0; 2] true CNone = Err ValueError /\
+  zernike_remove_a ex_is0 ex_zpoly q_solve ex_opd ex_mask ex_modes CRhoOnly = Err ValueError /\
+  zernike_fit_a ex_is0 ex_zpoly q_solve (@of_list QS 1 3 [Q2Qc 1; Q2Qc 2; Q2Qc 3]) ex_mask ex_modes true CNone = Err ValueError /\
+  match zernike_fit_a ex_is0 ex_zpoly q_solve ex_opd ex_mask ex_modes true CThetaOnly with
+  | Ok c => length c = 3%nat | Err _ => False end /\
+  (exists y, zernike_compose_a ex_is0 ex_zpoly ex_mask [] true CRhoOnly = Ok y).
+Proof. repeat match goal with |- _ /\ _ => split end; try (vm_compute; reflexivity).
+  - vm_compute. split; reflexivity.
+  - eexists. reflexivity. Qed.
